@@ -90,16 +90,43 @@ func vMakeWN(w, n int) string {
 	return out
 }
 func vMakeText(w, nl int) string {
-	out := ""
-	for i := 0; i < w; i++ {
-		out += "x"
+	if w < 0 {
+		w = 0
 	}
-	for i := 0; i < nl; i++ {
-		out += "\n"
+	if nl < 0 {
+		nl = 0
 	}
-	return out
+	return strings.Repeat("x", w) + strings.Repeat("\n", nl)
 }
-func vTextWidth(s string) int { return runewidth.StringWidth(s) }
+// native measurements agree with the engine's Text abstraction: cursor control sequences (ESC [ ... letter) have
+// no display width; vTextCUU is the line count of the cursor-up sequences
+func vStripCSI(s string) (string, int) {
+	out := make([]byte, 0, len(s))
+	cuu := 0
+	for i := 0; i < len(s); i++ {
+		if s[i] == 0x1b && i+1 < len(s) && s[i+1] == '[' {
+			j := i + 2
+			n := 0
+			for j < len(s) && (s[j] < 0x40 || s[j] > 0x7e) {
+				if s[j] >= '0' && s[j] <= '9' {
+					n = n*10 + int(s[j]-'0')
+				}
+				j++
+			}
+			if j < len(s) && s[j] == 'A' {
+				cuu += n
+			}
+			i = j
+			continue
+		}
+		out = append(out, s[i])
+	}
+	return string(out), cuu
+}
+func vTextWidth(s string) int {
+	t, _ := vStripCSI(s)
+	return runewidth.StringWidth(t)
+}
 func vTextLen(s string) int   { return len(s) }
 func vTextNL(s string) int    { return strings.Count(s, "\n") }
 
@@ -132,19 +159,21 @@ func vTextID(s string) int {
 	}
 	return h
 }
-func vTextCUU(s string) int { return 0 }
+func vTextCUU(s string) int {
+	_, n := vStripCSI(s)
+	return n
+}
 
 // vMarkText: a row of the given display width made of the letter for digit d (a=1, b=2, ...), so that the order
 // of marked pieces in a longer text can be read back (vTextSeq: base-16 digits in order of appearance).
 func vMarkText(w, nl, d int) string {
-	out := ""
-	for i := 0; i < w; i++ {
-		out += string(rune('a' + d - 1))
+	if w < 0 {
+		w = 0
 	}
-	for i := 0; i < nl; i++ {
-		out += "\n"
+	if nl < 0 {
+		nl = 0
 	}
-	return out
+	return strings.Repeat(string(rune('a'+d-1)), w) + strings.Repeat("\n", nl)
 }
 func vTextSeq(s string) int {
 	seq := 0
